@@ -75,8 +75,22 @@ def gen_dml_tables():
 class MGen(Gen):
     """Statements of the fragment; queries, tables, expressions and items come from the query-core generator."""
 
+    tame = False     # the clause-shape streams: plain names, expressions the dialect accepts
+
     def nword(self, p=0.12):
-        return self.rng.choice(NAME_WORDS) if self.rng.random() < p else self.name()
+        return self.rng.choice(NAME_WORDS) if not self.tame and self.rng.random() < p else self.name()
+
+    def word(self, p=0.12):
+        return super().word(0 if self.tame else p)
+
+    def expr(self):
+        if not self.tame:
+            return super().expr()
+        saved, self.pool = self.pool, {"ok": self.pool["ok"], "bad": []}
+        try:
+            return super().expr()
+        finally:
+            self.pool = saved
 
     def returning(self):
         return " RETURNING " + self.lst(self.item)
@@ -206,6 +220,12 @@ DIRECTED = [
     "DELETE FROM x1 RETURNING x2 WHERE x3", "DELETE FROM x1 WHERE x2 RETURNING", "DELETE FROM x1 WHERE x2 RETURNING x3, ORDER BY x4", "DELETE FROM x1, WHERE x2", "DELETE FROM x1 WHERE x2;",
     "DELETE FROM x1 WHERE x2 IN (SELECT x3 FROM x4) RETURNING (SELECT x5), EXISTS (SELECT x6)", "DELETE FROM (SELECT x1) AS x2", "DELETE FROM (x1 JOIN x2) WHERE x3", "DELETE FROM x1 x2 x3",
     "DELETE FROM x1 WHERE x2 RETURNING x3 AS x4 ORDER BY x5", "DELETE FROM x1 WHERE x2 RETURNING * LIMIT 1", "DELETE FROM x1.x2", "DELETE FROM x1 WHERE x2.x3 = 1",
+    # a comma in front of a DML keyword (trailing commas), inside the lists of the query core and of the DML parsers
+    "DELETE FROM x1 JOIN x2 USING (x3, RETURNING) RETURNING x4", "DELETE FROM x1 JOIN x2 USING (x3, RETURNING x4", "DELETE FROM x1, RETURNING x2",
+    "DELETE FROM x1, SET x2", "DELETE FROM x1 USING x2, RETURNING x3", "DELETE FROM x1 ORDER BY x2, RETURNING", "INSERT INTO x1 (x2, RETURNING) VALUES (1, 2)",
+    "INSERT INTO x1 (x2, SET) VALUES (1, 2)", "INSERT INTO x1 (x2, INTO) VALUES (1, 2)", "UPDATE x1 SET (x2, RETURNING) = (1, 2)", "UPDATE x1 SET (x2, SET) = (1, 2)",
+    "INSERT INTO x1 VALUES (1, RETURNING)", "INSERT INTO x1 VALUES (1, 2), RETURNING x2", "INSERT INTO x1 SELECT x2 FROM x3, RETURNING x4 RETURNING x5",
+    "DELETE x1, RETURNING FROM x2", "DELETE x1, SET FROM x2", "UPDATE x1 SET x2 = 1, SET = 2", "UPDATE x1 SET x2 = 1, RETURNING = 2",
     # other statements / nothing
     "SELECT x1", "VALUES (1)", "x1", "", "REPLACE INTO x1 VALUES (1)", "INSERT OR x1 VALUES (1)", "INSERT IGNORE INTO x1 VALUES (1)", "INSERT OVERWRITE x1 VALUES (1)",
     "INSERT INTO x1 PARTITION (x2) VALUES (1)", "INSERT INTO x1 VALUES (1) ON CONFLICT DO NOTHING", "INSERT INTO x1 VALUES (1) ON DUPLICATE KEY UPDATE x2 = 1",
@@ -240,6 +260,7 @@ def dml_cases(run, T, pool=None):
         g = MGen(rng, pool[d])
         part = (lambda i: True) if thorough else (lambda i: (i + di) % 3 == 0)
         g.sq_depth = 1
+        g.tame = True
         # (i) every combination of clause presence / absence, 1-3 columns / assignments, every kind of source
         for into in (True, False):
             for ncols in (0, 1, 2, 3):
@@ -257,6 +278,7 @@ def dml_cases(run, T, pool=None):
             pres = [bool(m2 >> i & 1) for i in range(5)]
             add(d, g.delete(2 if pres[4] else 1, using, pres[0], pres[1], pres[2], pres[3]), "shapes-delete")
         g.sq_depth = 0
+        g.tame = False
         # (ii) every word (reserved / non-reserved keywords of the two alphabets, the DML keywords) in every name position
         for wi, w in enumerate(NAME_WORDS):
             for ti, t in enumerate(NAME_SITES):
@@ -457,7 +479,7 @@ def impl_key(c, rs):
         return "insert-empty-columns-parenthesised-source"
     if "RETURNING" not in TABLES.get("kw_tab", []) and re.search(r"\bAS RETURNING\b", rs["again"].get("text2") or ""):
         return "returning-read-as-table-alias"
-    if rs["again"].get("same") is False and rs["again"].get("text2") == rs["text"] and re.search(r"\w\((\w+|'\w+') = ", rs["text"]):
+    if rs["again"].get("same") is False and rs["again"].get("text2") == rs["text"] and "==" in c["sql"] and re.search(r"\w\((?:[^()]*, )?(\w+|'\w+') = ", rs["text"]):
         return "function-argument-eq-read-as-named-argument"
     if re.search(r"\bSELECT ALL\b", rs.get("text", "")):
         return "select-all-identifier"
@@ -489,7 +511,8 @@ def check_dml(run, prop="C01", tables=None, pool=None):
     viol = {}
 
     def report(key, rep, **kw):
-        full = "dml:" + key
+        # a defect of the query core met inside a statement keeps its key
+        full = "query:" + key if key == "select-all-identifier" else "dml:" + key
         if full in known:
             run.known(full, known[full])
             stats.setdefault("by_key", {})
